@@ -31,10 +31,28 @@ type RunSpec struct {
 	KeepTrace bool   `json:"keep_trace,omitempty"`
 	Variant   string `json:"variant,omitempty"` // engine specific (e.g. enumeration index)
 	Tier      string `json:"tier,omitempty"`
+	// Feat is the set of harness features this run was recorded with (bit set,
+	// see Feat* constants). Every draw or schedule point added to the harness
+	// after tapes had been recorded is gated by a feature bit, so that a tape
+	// keeps meaning what it meant: new runs get FeatAll, a replay file carries
+	// the set it was found with.
+	Feat int `json:"feat,omitempty"`
 	// Stalls turns on the stalled-goroutine fault for this run (set by the
 	// search loop for a fixed share of the runs; part of the replay file)
 	Stalls bool `json:"stalls,omitempty"`
 }
+
+// Harness features added after the first regression tapes were recorded.
+const (
+	FeatNetWriteYield = 1 // optional schedule point at the beginning of a transport write
+	FeatCutAtRegister = 2 // C05 / C11 hub: reset placed at Hub.registerConnection
+	FeatEarlyResolve  = 4 // C17: services resolved while Start is still running
+	FeatCrash         = 8 // C05 / C11 hub: process crash and restart disturbances
+	FeatAll           = 15
+)
+
+// Feat reports whether the run uses harness feature bit.
+func (x *Ctx) Feat(bit int) bool { return x.Spec.Feat&bit != 0 }
 
 // Violation is what an oracle reports.
 type Violation struct {
@@ -338,6 +356,7 @@ func runInBubble(t *testing.T, sc *Scenario, spec RunSpec, res *RunResult) {
 	s := simrt.New(cfg)
 	x := &Ctx{S: s, Spec: spec, T: t, probes: map[string]int{}}
 	x.Net = simnet.New(s)
+	x.Net.YieldOnWrite = spec.Feat&FeatNetWriteYield != 0
 	s.Install()
 	x.Net.Install()
 	defer func() {
